@@ -629,12 +629,7 @@ def _shallow_water(ctx, env, stats):
         msg = (f'shallow_water.default_filters(grid, dt) attenuates the top wavenumber by {res["_default_filter_top"]:.6g} '
                f'under this scale and by {ref["_default_filter_top"]:.6g} under DEFAULT_SCALE for the same SI time step '
                '(tau=0.010938 is a number in DEFAULT_SCALE time units)')
-        if any(k['key'] == key for k in ctx.known):
-          ctx.fail(key, msg, inp)
-        else:
-          note = 'finding (not registered as known, reported only): ' + msg
-          if not any(nn.startswith('finding (not registered') for nn in ctx.notes):
-            ctx.notes.append(note)
+        ctx.fail(key, msg, inp)   # a failure of the property on the real code: KNOWN-FINDING when recorded, VIOLATION otherwise
 
 
 
